@@ -197,7 +197,13 @@ def handle (fields : List String) : String :=
     | some (.arr toks) =>
       let out := renderToks Generated.templates (fun a => mkTEnv a (esc == "1")) 64 toks
       let refined := toks.all (refinedOk Generated.templates 64)
-      "ok " ++ (if refined then "R" else "r") ++ (if out.safeB then "S" else "s") ++ " " ++ encStr out.erase
+      let tt : TagTable := { tbl := Generated.templates, intArgs := defaultIntArgs }
+      let tagOk := toks.all (tagTreeOk tt 64)
+      let wt := tsRun .text out.erase == some .text
+      let re := (Generated.namedRx.lookup "mistune.util._striptags_re").getD .fail
+      let agree := (tStriptags re out).erase == (tsStripT .text out).erase
+      "ok " ++ (if refined then "R" else "r") ++ (if out.safeB then "S" else "s") ++ (if tagOk then "T" else "t") ++ (if wt then "W" else "w")
+        ++ (if agree then "A" else "a") ++ " " ++ encStr out.erase ++ " " ++ encStr (tsStripT .text out).erase
     | _ => "unparsable"
   | ["ping"] => "pong"
   | _ => "bad-op"
